@@ -596,18 +596,58 @@ inductive Event
   | busy (prompt : List Tok)
 deriving Repr
 
-/-- `Causal.Init`: number of cells -/
-def capacity (parallel ctx batch : Nat) (window : Option Nat) : Nat :=
+/-- `Causal.Init`: number of cells.  `perSeqBatch = false`: the tree's `maxSequences*window + maxBatch`
+    (finding F-SWA-capacity); `true`: the proposed `maxSequences*(window + maxBatch)`. -/
+def capacityV (perSeqBatch : Bool) (parallel ctx batch : Nat) (window : Option Nat) : Nat :=
   match window with
   | none => parallel * ctx
-  | some W => if ctx < W then parallel * ctx else parallel * W + batch
+  | some W => if ctx < W then parallel * ctx
+              else if perSeqBatch then parallel * (W + batch) else parallel * W + batch
+
+def capacity (parallel ctx batch : Nat) (window : Option Nat) : Nat := capacityV false parallel ctx batch window
 
 def mkServer (resetEnd : Int) (parallel ctx batch : Nat) (multi canShift : Bool) (vocab eosMod : Nat)
-    (window : Option Nat := none) : Server :=
+    (window : Option Nat := none) (perSeqBatch : Bool := false) : Server :=
   { cache := { numCtx := ctx, multiUser := multi, canShift := canShift, resetEnd := resetEnd,
                slots := (List.range parallel).map fun i => ⟨i, [], false, 0⟩,
-               cells := List.replicate (capacity parallel ctx batch window) Cell.free,
+               cells := List.replicate (capacityV perSeqBatch parallel ctx batch window) Cell.free,
                window := window },
     seqs := List.replicate parallel none, nextSeq := 0, batchSize := batch, vocab := vocab, eosMod := eosMod }
+
+/-! ## runner/llamarunner/cache.go
+
+  The slot bookkeeping of the llama.cpp runner is the same Go over `[]input` (records only; its KV
+  cache is llama.cpp's, reached through cgo: modelled, not verified — the KV calls are assumed to do
+  what their names say).  `findLongestCacheSlot` / `findBestCacheSlot` / `countCommonPrefix` /
+  `ShiftDiscard` are the functions above (`findSlot` on a cache without cells). -/
+
+/-- llamarunner `LoadCacheSlot(prompt, cachePrompt)` on the records -/
+def llLoad (c : Cache) (prompt : List Tok) (now : Nat) (cachePrompt : Bool) :
+    Except Fail (Cache × Nat × List Tok) :=
+  match findSlot c prompt now with
+  | .error e => .error e
+  | .ok (c1, i, numPast) =>
+    let numPast := if cachePrompt then numPast else 0
+    loadTail c1 i numPast prompt now (fun _ _ _ => true)
+
+/-- llamarunner `ShiftCacheSlot`: `canShift` = `KvCacheCanShift()` and the `KvCacheSeqRm` succeeds -/
+def llShift (c : Cache) (i : Nat) (numKeep : Nat) : ShiftRes :=
+  if numKeep ≥ c.numCtx then .errKeep
+  else
+    let sl := getSlot c.slots i
+    let discard := shiftDiscard c.numCtx sl.inputs.length numKeep
+    if discard = 0 then .ok c
+    else
+      let newInputs := sl.inputs.take numKeep ++ sl.inputs.drop (numKeep + discard)
+      if c.canShift then .ok { c with slots := setSlot c.slots i fun s => { s with inputs := newInputs } }
+      else .reprocess { c with slots := setSlot c.slots i fun s => { s with inputs := [] } } newInputs
+
+inductive LLEvent
+  | load (cachePrompt : Bool) (prompt : List Tok)
+  | dec (slot : Nat) (toks : List Tok)      -- Decode + `seq.cache.Inputs = append(seq.cache.Inputs, pending...)`
+  | shift (slot keep : Nat)
+  | cut (slot k : Nat)                      -- stop handling: `Inputs = Inputs[:k]`, slot released
+  | rel (slot : Nat)
+deriving Repr
 
 end OllamaVerif.Runner
